@@ -374,4 +374,23 @@ def cleanupExpiredWait (t : LockTable) (g : WaitGraph) (now : Nat) : LockTable Ã
   let (t', n) := cleanupExpired t now
   (t', txs.foldl removeTransaction g, n)
 
+/-! ### end of a distributed transaction (`DistributedTxCoordinator`) -/
+
+/-- the handle loop every end-of-transaction site of `distributed_tx.rs` runs (`commit`, `abort`,
+    `cleanup_timeouts`, recovery â€” eight sites):
+    `for each recorded lock handle { lock_manager.release_by_handle_with_wait_cleanup(h, &wait_graph) }` -/
+def releaseHandles (t : LockTable) (g : WaitGraph) (handles : List Nat) : LockTable Ã— WaitGraph :=
+  handles.foldl (fun s h => releaseByHandleWait s.1 s.2 h) (t, g)
+
+/-- the end-of-transaction sequence as the code has it since /repo db804a9a: the handle loop, then
+    unconditionally `self.wait_graph.remove_transaction(tx_id)` -/
+def endTx (t : LockTable) (g : WaitGraph) (tx : Nat) (handles : List Nat) : LockTable Ã— WaitGraph :=
+  let s := releaseHandles t g handles
+  (s.1, removeTransaction s.2 tx)
+
+/-- PRE-FIX code (before /repo db804a9a): the handle loop only â€” the wait-for graph was reached
+    only through a handle that still found a lock.  Not a model of the current tree. -/
+def endTxOld (t : LockTable) (g : WaitGraph) (_tx : Nat) (handles : List Nat) : LockTable Ã— WaitGraph :=
+  releaseHandles t g handles
+
 end Neumann.Locks
